@@ -110,6 +110,8 @@ structure Facts11 where
   /-- a dict document must have exactly one key (the method name); otherwise a client fault, nothing runs -/
   docSingleKey : Bool
   patternDefault : PatternDefaultRule
+  /-- `ProtocolMixin.set_app` refuses to bind a protocol instance to a second, different Application -/
+  protoSingleApp : Bool
   soapBody : SoapBodyRule
 
 /-! ## Declarations as written by the user, and what the decorator makes of them -/
@@ -462,6 +464,25 @@ def serve (F : Facts11) (r : Routes) (tns : Text) (q : Request) : Resp :=
   match callHandles F r tns (requestString F tns q) with
   | [] => if F.emptyIsNotFound then .notFound else .stuck
   | h :: hs => .ran ((h :: hs).map (·.fid))
+
+/-! ## A protocol instance belongs to one application (`ProtocolMixin.set_app`, protocol/_base.py:174-184)
+
+`get_call_handles` looks the name up in `self.app.interface`: the application the protocol instance is bound to.
+Applications are identified by object identity (a number here), not by (tns, name). -/
+
+/-- `set_app`: `none` = AssertionError; otherwise the application the instance is bound to afterwards -/
+def setApp (F : Facts11) (bound : Option Nat) (app : Nat) : Option (Option Nat) :=
+  match bound with
+  | none => some (some app)
+  | some a => if a = app then some (some a) else if F.protoSingleApp then none else some (some app)
+
+/-- a history of `set_app` calls (every `Application(...)` the instance is passed to, every
+    `set_out_protocol`), all of them successful -/
+def setApps (F : Facts11) : Option Nat → List Nat → Option (Option Nat)
+  | b, [] => some b
+  | b, a :: as => match setApp F b a with
+    | none => none
+    | some b' => setApps F b' as
 
 /-! ## Order-free description of a service list (used by the theorems) -/
 
